@@ -978,3 +978,56 @@ def argclobber_matrix(rnd, tier):
         sub = rnd.randrange(1 << 62)
         import random as _r
         yield ("argclobber:%d" % sub, argclobber_program(_r.Random(sub)))
+
+
+def arraycopy_program(rnd):
+    """Element copies between global arrays of different sizes (first-declared array sits at the very top of memory):
+    every combination of constant / variable / computed subscripts on both sides, then all arrays are printed."""
+    n = rnd.randrange(2, 5)
+    sizes = [rnd.choice([1, 2, 3, 4, 8, 16, 64]) for _ in range(n)]
+    names = ["t%d" % i for i in range(n)]
+    globs = [("array", nm, ("num", sz)) for nm, sz in zip(names, sizes)]
+    stmts = []
+    for nm, sz in zip(names, sizes):
+        for i in range(sz):
+            stmts.append(("ass", ("sub", nm, ("num", i)), ("num", (i * 7 + len(nm) + sz) % 50)))
+
+    def subscript(nm, sz, side):
+        k = rnd.randrange(sz)
+        form = rnd.choice(["const", "var", "expr", "call", "elem"])
+        v = "i" if side == 0 else "j"
+        if form == "const":
+            return ("num", k)
+        if form == "var":
+            stmts.append(("ass", ("var", v), ("num", k)))
+            return ("var", v)
+        if form == "expr":
+            stmts.append(("ass", ("var", v), ("num", k + 2)))
+            return ("bin", "-", ("var", v), ("num", 2))
+        if form == "call":
+            return ("call", "id", [("num", k)])
+        stmts.append(("ass", ("sub", "idx", ("num", side)), ("num", k)))
+        return ("sub", "idx", ("num", side))
+    for _ in range(rnd.randrange(3, 12)):
+        a = rnd.randrange(n)
+        b = rnd.randrange(n)
+        rhs = ("sub", names[b], subscript(names[b], sizes[b], 1))
+        if rnd.random() < 0.3:
+            rhs = ("bin", rnd.choice(["+", "-"]), rhs, ("num", rnd.randrange(5)))
+        lhs = ("sub", names[a], subscript(names[a], sizes[a], 0))
+        stmts.append(("ass", lhs, rhs))
+    for nm, sz in zip(names, sizes):
+        for i in range(min(sz, 8)):
+            stmts.append(("sysst", 1, [("sub", nm, ("num", i)), ("num", 0)]))
+    idf = {"kind": "func", "name": "id", "formals": [("val", "x")], "locals": [], "body": ("ret", ("var", "x"))}
+    main = {"kind": "proc", "name": "main", "formals": [], "locals": [("var", "i"), ("var", "j")], "body": ("seq", stmts)}
+    globs.insert(rnd.randrange(len(globs) + 1), ("array", "idx", ("num", 2)))
+    return {"globals": globs, "procs": [idf, main] if rnd.random() < 0.5 else [main, idf]}
+
+
+def arraycopy_matrix(rnd, tier):
+    import random as _r
+    n = 500 if tier == "quick" else 20000
+    for i in range(n):
+        sub = rnd.randrange(1 << 62)
+        yield ("arraycopy:%d" % sub, arraycopy_program(_r.Random(sub)))
